@@ -11,6 +11,7 @@ import (
 	"fmt"
 	"net"
 	"net/url"
+	"strconv"
 	"strings"
 )
 
@@ -122,6 +123,12 @@ func parseProxy(s string) (Proxy, error) {
 	host, port, err := net.SplitHostPort(hostport)
 	if err != nil {
 		return noProxy, fmt.Errorf("split host:port: %w", err)
+	}
+	if host == "" {
+		return noProxy, errors.New("missing host")
+	}
+	if _, err := strconv.ParseUint(port, 10, 16); err != nil {
+		return noProxy, fmt.Errorf("invalid port %q", port)
 	}
 	return Proxy{
 		Mode: parseMode(mode),
